@@ -2,6 +2,7 @@
 import itertools
 from common import *
 import ileave
+import ileave2
 
 TWO = ["merge", "zip", "take_until"]   # skip_until: its skip flag is an atomic, the shared cell is locked only once skipping has stopped
 
@@ -43,7 +44,8 @@ def run(tier, seed, replay=None):
     if not build_stage(rep):
         return rep.finish()
     cases = load_replay_case(replay) if replay else (lock_cases(tier, rng) + stress_cases(tier)
-                                                       + ileave.cases("subject", tier, rng, "is") + ileave.cases("behavior", tier, rng, "ib"))
+                                                       + ileave.cases("subject", tier, rng, "is") + ileave.cases("behavior", tier, rng, "ib")
+                                                       + ileave2.cases(tier, rng))
     correspond(rep, "C10", cases, "C10_no_deadlock / C10_callbacks_are_exclusive / C10_*_disciplined / C10_cancel_waits_for_running_poll")
     c = rep.coverage
     hist = {}
@@ -59,7 +61,7 @@ def run(tier, seed, replay=None):
                  "thread keeps subscribing and unsubscribing, on a subject, merge, zip, combine_latest, take_until, merge_all, share; probes flag "
                  "overlapping entry, compare orders between subscribers, and every thread must return (20 s watchdog); a task body on a thread "
                  "pool against unsubscribe() of its handle. The schedules of (b) are the operating system's: supporting evidence, not enumeration; "
-                 "(c) " + ileave.RULE)
+                 "(c) " + ileave.RULE + "; (d) " + ileave2.RULE)
     rep.assumptions = ["callers do not re-enter the pipeline from inside a callback (the property's own proviso)",
                        "the lock hook reports acquisitions only: the nesting of the critical sections is the model's (Rust guard scopes read from the source)",
                        "the common-order clause is decided by exclusion of the subject's observer-list mutex (C10_callbacks_are_exclusive on that mutex) and sampled by the stress runs; it has no separate theorem"]
